@@ -256,6 +256,9 @@ func TestC42(t *testing.T) {
 				} else if rnd.Intn(6) == 0 {
 					qs, qe = s+rnd.Int63n(st), e+rnd.Int63n(st) // unaligned client, aligned by the frontend
 				}
+				if qe < qs { // only valid requests
+					qe = qs
+				}
 				lose := -1
 				if rnd.Intn(6) == 0 {
 					lose = rnd.Intn(4)
